@@ -69,8 +69,11 @@ class StandardGeometry(BaseGeometry):
         # two solutions for distance to conic
         with warnings.catch_warnings():
             warnings.simplefilter('ignore')
-            t1 = (-b + np.sqrt(d)) / (2 * a)
-            t2 = (-b - np.sqrt(d)) / (2 * a)
+            # numerically stable roots: no cancellation between -b and
+            # sqrt(d) when a is tiny (near-axial rays on a paraboloid)
+            q = -0.5 * (b + np.where(b < 0, -1.0, 1.0) * np.sqrt(d))
+            t1 = q / a
+            t2 = np.where(q == 0, t1, c / q)
 
         # intersections "behind" ray, set to inf to ignore
         t1[t1 < 0] = np.inf
